@@ -412,7 +412,23 @@ def serde_shape(ctx, crate, crs, e, tag):
                        "enumerate() runs over the deserialised sequence itself" if not bad else
                        "the position that becomes the id is counted after %s: every id behind a hole shifts" % ", ".join(bad))
     ins = de.calls_to(MP + "insert")
-    ctx.floor("serde-shape" + tag, "insert in Deserialize", len(ins), 1)
+    cls_ = [c for c in crate.bodies if c.kind == "Closure" and c.root and strip_generics(c.root) == de.key]
+    ins_cl = [(c, i, t) for c in cls_ for i, t in c.calls_to(MP + "insert")]
+    ctx.floor("serde-shape" + tag, "insert in Deserialize", len(ins) + len(ins_cl), 1)
+    if not ins and ins_cl:
+        # adaptor form: `.enumerate().filter_map(|(i, v)| v.map(|v| (K::from_usize(i), v))).for_each(|(id, v)| { mapping.insert(id, v); })`
+        # the id is made from element .0 of a closure parameter (the enumerate item), holes are dropped by filter_map / Option::map,
+        # and `ids-count-raw-slots` above says what the enumeration counts
+        fu = [(c, i, t) for c in cls_ + [de] for i, t in c.calls() if t.get("f") and t["f"]["name"] == "from_usize"]
+        okid = False
+        for c, i, t in fu:
+            d_ = c.origin(t["args"][0])
+            if d_.get("k") == "arg" and any(isinstance(x, dict) and x.get("f") == 0 for x in d_.get("proj", [])):
+                okid = True
+        names_ = {t["f"]["name"] for i, t in de.calls() if t.get("f")}
+        ctx.ob("serde-shape" + tag, de.key, "insert(from_usize(i))", okid and "enumerate" in names_, de.loc(),
+               "the id of a stored value is made from the position the enumerate item carries")
+        ctx.ob("serde-shape" + tag, de.key, "only-Some-slots", "filter_map" in names_ or "flatten" in names_, de.loc(), "holes are not inserted")
     for i, t in ins:
         d, ch = q.origin_thru(de, t["args"][1], transparent=set())
         ok = False
